@@ -174,6 +174,36 @@ func ruleNatsRemoveBeforeInvoke(c *Ctx) {
 // C18.2/.3/.4: control-line guards, single listener, closed handler
 func ruleNatsPlumbing(c *Ctx) {
 	p := c.P
+	// a reply inbox or an event subscription stays as the library made it until the adapter removes it:
+	// the only method the adapter calls on a nats.go subscription is Unsubscribe (a delivery limit such as
+	// AutoUnsubscribe(1) lets a pre-response use up the quota and drops the real reply)
+	{
+		n := 0
+		for _, fn := range p.Repo {
+			if fn.Pkg == nil && fn.Parent() == nil {
+				continue
+			}
+			if pk := TopLevel(fn).Pkg; pk == nil || pk.Pkg.Name() != "nats" {
+				continue
+			}
+			for _, call := range callsIn(fn) {
+				cf := calleeFunc(call.Common())
+				if cf == nil || cf.Pkg() == nil || cf.Pkg().Path() != "github.com/nats-io/nats.go" {
+					continue
+				}
+				sig, ok := cf.Type().(*types.Signature)
+				if !ok || sig.Recv() == nil || !strings.HasSuffix(sig.Recv().Type().String(), "nats.go.Subscription") {
+					continue
+				}
+				n++
+				c.inst(1)
+				c.check(cf.Name() == "Unsubscribe", fnName(fn), "only Unsubscribe is called on a messaging subscription ("+cf.Name()+")", p.InstrPos(call), "Unsubscribe", "the adapter alters the subscription ("+cf.Name()+"): a delivery limit or drain on a reply inbox lets a pre-response or an early message consume it, and the request then ends with a timeout instead of the service's reply")
+			}
+		}
+		if n == 0 {
+			c.viol("nats", "only Unsubscribe is called on a messaging subscription", "-", "no call on a nats.go subscription found")
+		}
+	}
 	for _, nm := range []string{"(*nats.Client).SendRequest", "(*nats.Client).Subscribe"} {
 		fn := p.Fn(nm)
 		if fn == nil {
@@ -635,6 +665,16 @@ func ruleDispose(c *Ctx) {
 			if !(l >= 0 && l < d && d < u && l < cl && cl < u) {
 				bad = "disposing flag and worker channel close are not in one critical section of the connection mutex (Enqueue could send on the closed channel): " + tr.FmtPath(path)
 			}
+			// the wait-group release is what Stop waits for before it closes the messaging client and the cache:
+			// it comes after everything the connection still does with them
+			wg := indexKind(path, "wg.Done")
+			for _, k := range []string{"RemoveConn", "unsubscribeConn", "sub.Dispose", "range-subs"} {
+				for j, e := range path {
+					if e.Kind == k && j > wg && wg >= 0 {
+						bad = "the connection reports itself done (wg.Done, which releases Stop) before " + k + ": Stop goes on to close the messaging client and the cache workers while the connection is still releasing its subscriptions (send on the closed worker channel): " + tr.FmtPath(path)
+					}
+				}
+			}
 		}
 		c.check(bad == "", fnName(fn), "dispose releases everything: flag+close under the mutex, cache conn, conn events, every subscription, wait group, registry", p.Pos(fn.Pos()), fmt.Sprintf("%d paths", len(tr.Paths)), bad)
 	}
@@ -796,7 +836,8 @@ func ruleTempConn(c *Ctx) {
 			return []Ev{{Kind: "wait"}}
 		}
 		if call, ok := in.(ssa.CallInstruction); ok {
-			if f := calleeFunc(call.Common()); f != nil && f.Name() == "httpError" {
+			// an error response: a repository function that writes the response status (httpError, s.writeError, ...)
+			if sf := call.Common().StaticCallee(); sf != nil && p.isRepoFn(sf) && sf.Parent() == nil && p.writesResponse(sf, 0) {
 				return []Ev{{Kind: "httpError", Stop: true}}
 			}
 		}
@@ -915,4 +956,22 @@ func natsRoles(p *Prog) (reqs, completion, isReq *types.Var) {
 		}
 	}
 	return
+}
+
+// writesResponse: the function (or a repository function it calls, three
+// levels deep) calls WriteHeader on an http.ResponseWriter.
+func (p *Prog) writesResponse(f *ssa.Function, depth int) bool {
+	if depth > 3 {
+		return false
+	}
+	for _, call := range callsIn(f) {
+		com := call.Common()
+		if com.IsInvoke() && com.Method.Name() == "WriteHeader" && strings.HasSuffix(com.Value.Type().String(), "net/http.ResponseWriter") {
+			return true
+		}
+		if sf := com.StaticCallee(); sf != nil && p.isRepoFn(sf) && sf != f && p.writesResponse(sf, depth+1) {
+			return true
+		}
+	}
+	return false
 }
